@@ -255,7 +255,37 @@ func genPkg(r *core.RNG, dir, name string, malformed bool) pkgIn {
 	} else {
 		p.Files = []fileIn{{Name: "a.go", Decls: g.decls}}
 	}
+	// text outside the syntax tree's extent: above the package clause and behind the last declaration
+	for i := range p.Files {
+		if r.Chance(45) {
+			p.Files[i].Head = core.Pick(r, fileHeads)
+		}
+		if r.Chance(35) {
+			p.Files[i].Tail = core.Pick(r, fileTails)
+		}
+	}
+	if !malformed && r.Chance(25) { // a doc.go that holds nothing but the package doc and generator tags
+		p.Files = append(p.Files, fileIn{Name: "doc.go", Head: "// +gengo:deepcopy=true\n// +gengo:enum\n\n// Package " + name + " is documented in a file of its own.\n"})
+	}
 	return p
+}
+
+var fileHeads = []string{
+	"// Package doc: one line.\n",
+	"//go:build !ignore_this_file\n\n",
+	"//go:build !ignore_this_file\n\n// +gengo:deepcopy=true\n// Package doc with a tag line above it.\n",
+	"/*\nA block comment\nover several lines, detached from the package clause.\n*/\n\n",
+	"// Copyright notice, detached.\n\n// Package doc.\n//\n// Second paragraph.\n",
+	"\n\n\n",
+	"// Code generated by hand. DO NOT EDIT.\n\n",
+}
+
+var fileTails = []string{
+	"// a trailing comment behind the last declaration\n",
+	"/* the end */\n",
+	"\n\n// EOF\n// (two lines)\n",
+	"// no newline at the end of the file",
+	"\n\n\n",
 }
 
 var pkgDirs = []struct{ dir, name string }{{"", "m"}, {"a", "a"}, {"b", "b"}, {"a/c", "c"}, {"internal/d", "d"}}
@@ -282,7 +312,8 @@ func genModule(r *core.RNG, malformed bool) input {
 		}
 		if r.Chance(10) {
 			// std packages are type-checked from source on every load: fewer loads for these
-			in.Pkgs[i].Imports = append(in.Pkgs[i].Imports, core.Pick(r, []string{"errors", "unsafe", "sort", "unicode/utf8"}))
+			// (crypto/x509, net/textproto ...: closures with vendored golang.org/x packages imported by >= 2 packages)
+			in.Pkgs[i].Imports = append(in.Pkgs[i].Imports, core.Pick(r, []string{"errors", "unsafe", "sort", "unicode/utf8", "errors", "sort", "crypto/x509", "mime/multipart"}))
 			in.Procs, in.Loads = 2, 1
 		}
 	}
@@ -362,6 +393,16 @@ func fixedCases() []input {
 		{Note: "a dependency used through a replace directive (local checkout): SourceDir / LocateInPackage of its packages", Roots: []string{"./..."}, Procs: 2, Loads: 1,
 			Pkgs: []pkgIn{pk("", "m", []string{depPath, depPath + "/sub"}, "type T struct{}")},
 			Dep:  []pkgIn{pk("", "dep", []string{depPath + "/sub"}, "type D struct{}", "func (D) M() {}"), pk("sub", "sub", nil, "const S = 1", "type U int")}},
+		{Note: "positions above the package clause and behind the last declaration: file doc, build constraint, tag comments, doc.go without declarations, trailing comments (two packages, so that the wrong package can be named)",
+			Roots: []string{"./..."}, Procs: 2, Loads: 1, Pkgs: []pkgIn{
+				{Dir: "", Name: "m", Imports: []string{modPath + "/sub"}, Files: []fileIn{
+					{Name: "a.go", Head: "//go:build !ignore_this_file\n\n// Copyright.\n\n", Decls: []string{"type T struct{}", "func F() {}"}, Tail: "// trailing comment\n\n/* and a block */\n"},
+					{Name: "doc.go", Head: "// +gengo:deepcopy=true\n// +gengo:enum\n\n// Package m is documented here.\n"},
+					{Name: "empty.go"}}},
+				{Dir: "sub", Name: "sub", Files: []fileIn{
+					{Name: "sub.go", Head: "// Package sub.\n", Decls: []string{"const S = 1"}, Tail: "// the end"}}}}},
+		{Note: "std's vendored packages (import path golang.org/x/..., PkgPath vendor/golang.org/x/...) imported by several packages each: every Imports() entry of every package of the universe is the universe's Package (object identity)",
+			Roots: []string{"."}, Procs: 2, Loads: 1, Pkgs: []pkgIn{pk("", "m", []string{"net/http", "crypto/tls"}, "type T struct{}")}},
 		one("//line directive naming a file in the same directory", nil,
 			pk("", "m", nil, "type T struct{}", "//line renamed.go:10\nfunc Renamed() {}")),
 		one("//line directive naming a file in a foreign directory (known finding)", nil,
@@ -445,6 +486,16 @@ func (prop) Shrink(raw json.RawMessage) []json.RawMessage {
 			if len(in.Pkgs[i].Files) > 1 {
 				c := clone()
 				c.Pkgs[i].Files = append(c.Pkgs[i].Files[:f], c.Pkgs[i].Files[f+1:]...)
+				add(c)
+			}
+			if in.Pkgs[i].Files[f].Head != "" {
+				c := clone()
+				c.Pkgs[i].Files[f].Head = ""
+				add(c)
+			}
+			if in.Pkgs[i].Files[f].Tail != "" {
+				c := clone()
+				c.Pkgs[i].Files[f].Tail = ""
 				add(c)
 			}
 			ds := in.Pkgs[i].Files[f].Decls
